@@ -63,6 +63,16 @@ func (x *Exec) execCall(s *State, in *ssa.Call, resume func(*State)) bool {
 		fr.env[in] = v
 		x.reassumeCaptures(s)
 	}
+	if _, cond := fr.ranCond[in]; cond {
+		// the call runs now, whatever was known about earlier rounds or merged paths
+		cp := make(map[ssa.Value]T, len(fr.ranCond))
+		for k2, v2 := range fr.ranCond {
+			if k2 != ssa.Value(in) {
+				cp[k2] = v2
+			}
+		}
+		fr.ranCond = cp
+	}
 	if b, ok := c.Value.(*ssa.Builtin); ok {
 		set(x.builtin(s, in, b))
 		return false
@@ -71,6 +81,10 @@ func (x *Exec) execCall(s *State, in *ssa.Call, resume func(*State)) bool {
 	for _, a := range c.Args {
 		args = append(args, x.valueOf(s, a))
 	}
+	if fr.callArgs == nil {
+		fr.callArgs = map[ssa.Value][]Val{}
+	}
+	fr.callArgs[in] = args
 	restore := x.preCall(s, in, args)
 	defer restore()
 	if c.IsInvoke() {
